@@ -113,6 +113,26 @@ Proof.
   unfold valid_fnum. rewrite andb_true_iff, negb_true_iff, N.eqb_neq, N.ltb_lt. lia.
 Qed.
 
+Lemma two64_eq : two64 = 2 ^ 64.
+Proof. reflexivity. Qed.
+Lemma two29_eq : two29 = 2 ^ 29.
+Proof. reflexivity. Qed.
+
+(* [wf_field] in arithmetic form *)
+Lemma wf_field_spec num v :
+  wf_field (num, v) <->
+  (1 <= num < 2 ^ 29 /\
+   match v with
+   | WVarint n => n < 2 ^ 64
+   | WFixed64 b => length b = 8%nat
+   | WBytes b => N.of_nat (length b) < 2 ^ 64
+   | WFixed32 b => length b = 4%nat
+   end).
+Proof.
+  unfold wf_field. cbn [fst snd]. rewrite valid_fnum_range, <- two29_eq, <- two64_eq.
+  destruct v; rewrite ?lenN_length; tauto.
+Qed.
+
 Lemma tag_div num wt : wt < 8 -> (num * 8 + wt) / 8 = num.
 Proof. intros H. lia. Qed.
 Lemma tag_mod num wt : wt < 8 -> (num * 8 + wt) mod 8 = wt.
@@ -1148,7 +1168,9 @@ Ltac wf_tac :=
 Example block_roundtrip_nonvacuous :
   wf_dblock example_block /\ exists bs, enc_block example_block = Ok bs /\ dec_block bs = Ok example_block.
 Proof.
-  split; [wf_tac|]. eexists. split; vm_compute; reflexivity.
+  split; [wf_tac|].
+  exists (match enc_block example_block with Ok bs => bs | _ => [] end).
+  split; vm_compute; reflexivity.
 Qed.
 
 (* ------------------------------------------------------------------ *)
@@ -1259,3 +1281,610 @@ Qed.
 
 Theorem dec_block_no_panic bs s : dec_block bs <> Panic s.
 Proof. apply np_not_panic. apply np_dec_block. Qed.
+
+(* ------------------------------------------------------------------ *)
+(** * 10. Biscuit (the signed envelope) *)
+
+Definition wf_sblock (s : sblock) : Prop := sb_alg s < two32.
+Definition wf_container (c : container) : Prop :=
+  match c_rootid c with Some r => r < two32 | None => True end /\
+  wf_sblock (c_auth c) /\ Forall wf_sblock (c_blocks c) /\
+  small (enc_container c).
+
+Definition pb_of_sblock (s : sblock) : psblock :=
+  {| ps_block := Some (sb_block s);
+     ps_key := Some {| pk_alg := Some (sb_alg s); pk_key := Some (sb_key s) |};
+     ps_sig := Some (sb_sig s) |}.
+Definition pb_of_container (c : container) : pbiscuit :=
+  {| pbi_rootid := c_rootid c;
+     pbi_auth := Some (pb_of_sblock (c_auth c));
+     pbi_blocks := map pb_of_sblock (c_blocks c);
+     pbi_proof := Some (c_proof c) |}.
+
+Definition pubkey_fields (s : sblock) : list wfield :=
+  [fv fn_pk_algorithm (enc_enum (sb_alg s)); fb fn_pk_key (sb_key s)].
+
+Lemma wf_fields_pubkey s :
+  wf_sblock s -> small (encode_fields (pubkey_fields s)) -> Forall wf_field (pubkey_fields s).
+Proof.
+  intros Hw Hs. apply wf_fields_small; [exact Hs|].
+  constructor; [split; [reflexivity | apply enc_enum_small; exact Hw]|].
+  constructor; [|constructor]. split; [reflexivity | exact I].
+Qed.
+
+Lemma wf_fields_sblock s : small (encode_fields (fields_sblock s)) -> Forall wf_field (fields_sblock s).
+Proof.
+  intros Hs. apply wf_fields_small; [exact Hs|].
+  repeat (constructor; [split; [reflexivity | exact I]|]). constructor.
+Qed.
+
+Lemma step_sblock_block st b :
+  step_sblock st (fb fn_sb_block b) =
+  Some {| ps_block := Some b; ps_key := ps_key st; ps_sig := ps_sig st |}.
+Proof. reflexivity. Qed.
+Lemma step_sblock_key st p :
+  step_sblock st (fn_sb_nextKey, WBytes p) =
+  match sub p (p_pubkey (match ps_key st with Some k => k | None => init_pubkey end)) with
+  | Some k => Some {| ps_block := ps_block st; ps_key := Some k; ps_sig := ps_sig st |}
+  | None => None
+  end.
+Proof. reflexivity. Qed.
+Lemma step_sblock_sig st b :
+  step_sblock st (fb fn_sb_signature b) =
+  Some {| ps_block := ps_block st; ps_key := ps_key st; ps_sig := Some b |}.
+Proof. reflexivity. Qed.
+
+Lemma parse_pubkey s :
+  wf_sblock s ->
+  p_pubkey init_pubkey (pubkey_fields s) =
+  Some {| pk_alg := Some (sb_alg s); pk_key := Some (sb_key s) |}.
+Proof.
+  intros Hw. unfold p_pubkey, pubkey_fields. cbn [fold_opt].
+  change (step_pubkey init_pubkey (fv fn_pk_algorithm (enc_enum (sb_alg s))))
+    with (Some {| pk_alg := Some (enum_of (enc_enum (sb_alg s))); pk_key := None |}).
+  cbn match. rewrite enum_roundtrip by exact Hw. reflexivity.
+Qed.
+
+Lemma parse_sblock s :
+  wf_sblock s -> small (encode_fields (fields_sblock s)) ->
+  p_sblock init_sblock (fields_sblock s) = Some (pb_of_sblock s).
+Proof.
+  intros Hw Hs. unfold p_sblock, fields_sblock in *. cbn [fold_opt].
+  rewrite step_sblock_block. unfold fm. rewrite step_sblock_key. fold (pubkey_fields s) in *.
+  assert (Hsk : small (encode_fields (pubkey_fields s))).
+  { eapply small_fm; [exact Hs|]. right. left. reflexivity. }
+  rewrite sub_encode by (apply wf_fields_pubkey; assumption).
+  cbn [ps_key init_sblock]. rewrite parse_pubkey by exact Hw.
+  rewrite step_sblock_sig. reflexivity.
+Qed.
+
+Lemma conv_sblock_pb s : conv_sblock (pb_of_sblock s) = Ok s.
+Proof. destruct s; reflexivity. Qed.
+
+Lemma req_sblock_pb s : req_sblock (pb_of_sblock s) = true.
+Proof. reflexivity. Qed.
+
+Lemma parse_proof p : p_proof PNone (fields_proof p) = Some p.
+Proof. destruct p; reflexivity. Qed.
+
+Lemma wf_fields_proof p : small (encode_fields (fields_proof p)) -> Forall wf_field (fields_proof p).
+Proof.
+  intros Hs. apply wf_fields_small; [exact Hs|].
+  destruct p; repeat constructor.
+Qed.
+
+Lemma step_biscuit_rootid st x :
+  step_biscuit st (fv fn_biscuit_rootKeyId x) =
+  Some {| pbi_rootid := Some (u32 x); pbi_auth := pbi_auth st;
+          pbi_blocks := pbi_blocks st; pbi_proof := pbi_proof st |}.
+Proof. reflexivity. Qed.
+Lemma step_biscuit_auth st p :
+  step_biscuit st (fn_biscuit_authority, WBytes p) =
+  match sub p (p_sblock (match pbi_auth st with Some a => a | None => init_sblock end)) with
+  | Some a => Some {| pbi_rootid := pbi_rootid st; pbi_auth := Some a;
+                      pbi_blocks := pbi_blocks st; pbi_proof := pbi_proof st |}
+  | None => None
+  end.
+Proof. reflexivity. Qed.
+Lemma step_biscuit_block st p :
+  step_biscuit st (fn_biscuit_blocks, WBytes p) =
+  match sub p (p_sblock init_sblock) with
+  | Some b => Some {| pbi_rootid := pbi_rootid st; pbi_auth := pbi_auth st;
+                      pbi_blocks := pbi_blocks st ++ [b]; pbi_proof := pbi_proof st |}
+  | None => None
+  end.
+Proof. reflexivity. Qed.
+Lemma step_biscuit_proof st p :
+  step_biscuit st (fn_biscuit_proof, WBytes p) =
+  match sub p (p_proof (match pbi_proof st with Some x => x | None => PNone end)) with
+  | Some x => Some {| pbi_rootid := pbi_rootid st; pbi_auth := pbi_auth st;
+                      pbi_blocks := pbi_blocks st; pbi_proof := Some x |}
+  | None => None
+  end.
+Proof. reflexivity. Qed.
+
+Definition rootid_fields (o : option N) : list wfield :=
+  match o with Some r => [fv fn_biscuit_rootKeyId r] | None => [] end.
+
+Lemma wf_fields_container c :
+  wf_container c -> Forall wf_field (fields_container c).
+Proof.
+  intros (Hr & _ & _ & Hs). apply wf_fields_small; [exact Hs|]. unfold fields_container.
+  apply Forall_app. split.
+  { destruct (c_rootid c) as [r|]; [|constructor].
+    constructor; [|constructor]. split; [reflexivity | apply two32_lt_two64; exact Hr]. }
+  apply Forall_app. split.
+  { constructor; [|constructor]. split; [reflexivity | exact I]. }
+  apply Forall_app. split.
+  { apply (wf_fields_map fn_biscuit_blocks (fun b => WBytes (encode_fields (fields_sblock b))));
+      [reflexivity | intros; exact I]. }
+  constructor; [|constructor]. split; [reflexivity | exact I].
+Qed.
+
+Lemma parse_container_fields c :
+  wf_container c -> p_biscuit init_biscuit (fields_container c) = Some (pb_of_container c).
+Proof.
+  intros (Hr & Ha & Hb & Hs). unfold enc_container in Hs.
+  unfold p_biscuit, fields_container in *. fold (rootid_fields (c_rootid c)) in *.
+  rewrite fold_opt_app.
+  assert (E1 : fold_opt step_biscuit (rootid_fields (c_rootid c)) init_biscuit =
+               Some {| pbi_rootid := c_rootid c; pbi_auth := None; pbi_blocks := []; pbi_proof := None |}).
+  { destruct (c_rootid c) as [r|]; [|reflexivity]. cbn [rootid_fields fold_opt].
+    rewrite step_biscuit_rootid, u32_small by exact Hr. reflexivity. }
+  rewrite E1. cbn [app fold_opt]. unfold fm at 1. rewrite step_biscuit_auth.
+  assert (Hsa : small (encode_fields (fields_sblock (c_auth c)))).
+  { eapply small_fm; [exact Hs|]. apply in_or_app. right. left. reflexivity. }
+  rewrite sub_encode by (apply wf_fields_sblock; assumption).
+  cbn [pbi_auth]. rewrite parse_sblock by assumption.
+  rewrite fold_opt_app.
+  rewrite (fold_opt_repeated step_biscuit _ pb_of_sblock pbi_blocks
+             (fun st l => {| pbi_rootid := pbi_rootid st; pbi_auth := pbi_auth st;
+                             pbi_blocks := l; pbi_proof := pbi_proof st |}));
+    [| intros []; reflexivity | reflexivity | reflexivity |].
+  2:{ intros b st Hin. unfold fm at 1. rewrite step_biscuit_block.
+      assert (Hsb : small (encode_fields (fields_sblock b))).
+      { eapply small_fm; [exact Hs|]. apply in_or_app. right. cbn [app]. right.
+        apply in_or_app. left.
+        apply in_map_iff. exists b. split; [reflexivity|exact Hin]. }
+      rewrite sub_encode by (apply wf_fields_sblock; assumption).
+      rewrite parse_sblock; [reflexivity | exact (Forall_In _ _ _ Hb Hin) | exact Hsb]. }
+  cbn [fold_opt]. unfold fm. rewrite step_biscuit_proof.
+  assert (Hsp : small (encode_fields (fields_proof (c_proof c)))).
+  { eapply small_fm; [exact Hs|]. apply in_or_app. right. cbn [app]. right.
+    apply in_or_app. right. left. reflexivity. }
+  rewrite sub_encode by (apply wf_fields_proof; assumption).
+  cbn [pbi_proof pbi_rootid pbi_auth pbi_blocks app]. rewrite parse_proof. reflexivity.
+Qed.
+
+Lemma req_biscuit_pb c : req_biscuit (pb_of_container c) = true.
+Proof.
+  unfold req_biscuit, pb_of_container. cbn [pbi_auth pbi_blocks pbi_proof].
+  rewrite req_sblock_pb. rewrite forallb_map_true by (intros; apply req_sblock_pb). reflexivity.
+Qed.
+
+Lemma conv_biscuit_pb c : conv_biscuit (pb_of_container c) = Ok c.
+Proof.
+  unfold conv_biscuit, pb_of_container. cbn [pbi_auth pbi_proof pbi_blocks pbi_rootid].
+  rewrite conv_sblock_pb. cbn [bind].
+  rewrite mapM_map by (intros; apply conv_sblock_pb). cbn [bind]. destruct c; reflexivity.
+Qed.
+
+Theorem container_roundtrip c : wf_container c -> dec_container (enc_container c) = Ok c.
+Proof.
+  intros Hw. unfold dec_container, parse_biscuit, unmarshal_msg, enc_container.
+  rewrite fields_roundtrip by (apply wf_fields_container; exact Hw).
+  rewrite parse_container_fields by exact Hw.
+  rewrite req_biscuit_pb. cbn [orb bind]. apply conv_biscuit_pb.
+Qed.
+
+Definition example_container : container :=
+  {| c_rootid := Some 4294967295;
+     c_auth := {| sb_block := [24; 3]; sb_alg := 0; sb_key := repeat 7 32; sb_sig := repeat 9 64 |};
+     c_blocks := [{| sb_block := []; sb_alg := 4294967295; sb_key := [1]; sb_sig := [] |};
+                  {| sb_block := [1;2;3]; sb_alg := 1; sb_key := repeat 1 32; sb_sig := repeat 2 64 |}];
+     c_proof := PFinalSig (repeat 3 64) |}.
+
+Example container_roundtrip_nonvacuous :
+  wf_container example_container /\
+  dec_container (enc_container example_container) = Ok example_container.
+Proof. split; [wf_tac | vm_compute; reflexivity]. Qed.
+
+(* ------------------------------------------------------------------ *)
+(** * 11. AuthorizerPolicies *)
+
+Definition wf_policy (p : N * list drule) : Prop := fst p < two32 /\ Forall wf_drule (snd p).
+Definition wf_policies (a : policies) : Prop :=
+  match ap_version a with Some v => v < two32 | None => True end /\
+  Forall wf_dpred (ap_facts a) /\ Forall wf_drule (ap_rules a) /\
+  Forall (Forall wf_drule) (ap_checks a) /\ Forall wf_policy (ap_policies a) /\
+  small (encode_fields (fields_policies a)).
+
+Definition pb_of_policy (p : N * list drule) : ppolicy :=
+  {| ppo_queries := map pb_of_rule (snd p); ppo_kind := Some (fst p) |}.
+Definition pb_of_policies (a : policies) : ppolicies :=
+  {| pa_symbols := ap_symbols a;
+     pa_version := ap_version a;
+     pa_facts := map (fun p => Some (pb_of_pred p)) (ap_facts a);
+     pa_rules := map pb_of_rule (ap_rules a);
+     pa_checks := map (map pb_of_rule) (ap_checks a);
+     pa_policies := map pb_of_policy (ap_policies a) |}.
+
+Lemma wf_fields_policy p :
+  wf_policy p -> small (encode_fields (fields_policy p)) -> Forall wf_field (fields_policy p).
+Proof.
+  intros [Hk _] Hs. apply wf_fields_small; [exact Hs|]. unfold fields_policy.
+  apply Forall_app. split.
+  { apply (wf_fields_map fn_policy_queries (fun r => WBytes (encode_fields (fields_rule r))));
+      [reflexivity | intros; exact I]. }
+  constructor; [|constructor]. split; [reflexivity | apply enc_enum_small; exact Hk].
+Qed.
+
+Lemma step_policy_query d st p :
+  step_policy d st (fn_policy_queries, WBytes p) =
+  match sub p (p_rule d init_rule) with
+  | Some r => Some {| ppo_queries := ppo_queries st ++ [r]; ppo_kind := ppo_kind st |}
+  | None => None
+  end.
+Proof. reflexivity. Qed.
+Lemma step_policy_kind d st x :
+  step_policy d st (fv fn_policy_kind x) =
+  Some {| ppo_queries := ppo_queries st; ppo_kind := Some (enum_of x) |}.
+Proof. reflexivity. Qed.
+
+Lemma parse_policy d p :
+  (2 <= d)%nat -> wf_policy p -> forallb rule_ok (snd p) = true ->
+  small (encode_fields (fields_policy p)) ->
+  p_policy d init_policy (fields_policy p) = Some (pb_of_policy p).
+Proof.
+  intros Hd [Hk Hq] Hok Hs. unfold p_policy, fields_policy in *.
+  rewrite fold_opt_app.
+  rewrite (fold_opt_repeated (step_policy d) _ pb_of_rule ppo_queries
+             (fun st l => {| ppo_queries := l; ppo_kind := ppo_kind st |}));
+    [| intros []; reflexivity | reflexivity | reflexivity |].
+  2:{ intros r st Hin. unfold fm at 1. rewrite step_policy_query.
+      assert (Hsr : small (encode_fields (fields_rule r))).
+      { eapply small_fm; [exact Hs|]. apply in_or_app. left.
+        apply in_map_iff. exists r. split; [reflexivity|exact Hin]. }
+      rewrite sub_encode by (apply wf_fields_rule; assumption).
+      rewrite parse_rule; [reflexivity | exact Hd | exact (Forall_In _ _ _ Hq Hin)
+                          | exact (forallb_In _ _ _ Hok Hin) | exact Hsr]. }
+  cbn [fold_opt]. rewrite step_policy_kind, enum_roundtrip by exact Hk. reflexivity.
+Qed.
+
+Lemma conv_policy_pb p : forallb rule_ok (snd p) = true -> conv_policy (pb_of_policy p) = Ok p.
+Proof.
+  intros H. unfold conv_policy, pb_of_policy. cbn [ppo_kind ppo_queries].
+  rewrite mapM_map by (intros r Hr; apply conv_rule_pb; exact (forallb_In _ _ _ H Hr)).
+  cbn [bind]. destruct p; reflexivity.
+Qed.
+
+Lemma req_policy_pb p : req_policy (pb_of_policy p) = true.
+Proof.
+  unfold req_policy, pb_of_policy. cbn [ppo_queries ppo_kind].
+  rewrite forallb_map_true by (intros; apply req_rule_pb). reflexivity.
+Qed.
+
+Definition version_fields (o : option N) : list wfield :=
+  match o with Some v => [fv fn_ap_version v] | None => [] end.
+
+Lemma wf_fields_policies a :
+  wf_policies a -> Forall wf_field (fields_policies a).
+Proof.
+  intros (Hv & _ & _ & _ & _ & Hs). apply wf_fields_small; [exact Hs|]. unfold fields_policies.
+  apply Forall_app. split.
+  { apply (wf_fields_map fn_ap_symbols (fun s => WBytes s)); [reflexivity | intros; exact I]. }
+  apply Forall_app. split.
+  { destruct (ap_version a) as [v|]; [|constructor].
+    constructor; [|constructor]. split; [reflexivity | apply two32_lt_two64; exact Hv]. }
+  apply Forall_app. split.
+  { apply (wf_fields_map fn_ap_facts (fun p => WBytes (encode_fields (fields_fact p))));
+      [reflexivity | intros; exact I]. }
+  apply Forall_app. split.
+  { apply (wf_fields_map fn_ap_rules (fun r => WBytes (encode_fields (fields_rule r))));
+      [reflexivity | intros; exact I]. }
+  apply Forall_app. split.
+  { apply (wf_fields_map fn_ap_checks (fun c => WBytes (encode_fields (fields_check c))));
+      [reflexivity | intros; exact I]. }
+  apply (wf_fields_map fn_ap_policies (fun p => WBytes (encode_fields (fields_policy p))));
+    [reflexivity | intros; exact I].
+Qed.
+
+Lemma step_policies_symbol d st s :
+  step_policies d st (fb fn_ap_symbols s) =
+  Some {| pa_symbols := pa_symbols st ++ [s]; pa_version := pa_version st;
+          pa_facts := pa_facts st; pa_rules := pa_rules st;
+          pa_checks := pa_checks st; pa_policies := pa_policies st |}.
+Proof. reflexivity. Qed.
+Lemma step_policies_version d st x :
+  step_policies d st (fv fn_ap_version x) =
+  Some {| pa_symbols := pa_symbols st; pa_version := Some (u32 x);
+          pa_facts := pa_facts st; pa_rules := pa_rules st;
+          pa_checks := pa_checks st; pa_policies := pa_policies st |}.
+Proof. reflexivity. Qed.
+Lemma step_policies_fact d st p :
+  step_policies d st (fn_ap_facts, WBytes p) =
+  match sub p (p_fact d None) with
+  | Some x => Some {| pa_symbols := pa_symbols st; pa_version := pa_version st;
+                      pa_facts := pa_facts st ++ [x]; pa_rules := pa_rules st;
+                      pa_checks := pa_checks st; pa_policies := pa_policies st |}
+  | None => None
+  end.
+Proof. reflexivity. Qed.
+Lemma step_policies_rule d st p :
+  step_policies d st (fn_ap_rules, WBytes p) =
+  match sub p (p_rule d init_rule) with
+  | Some x => Some {| pa_symbols := pa_symbols st; pa_version := pa_version st;
+                      pa_facts := pa_facts st; pa_rules := pa_rules st ++ [x];
+                      pa_checks := pa_checks st; pa_policies := pa_policies st |}
+  | None => None
+  end.
+Proof. reflexivity. Qed.
+Lemma step_policies_check d st p :
+  step_policies d st (fn_ap_checks, WBytes p) =
+  match sub p (p_check d []) with
+  | Some x => Some {| pa_symbols := pa_symbols st; pa_version := pa_version st;
+                      pa_facts := pa_facts st; pa_rules := pa_rules st;
+                      pa_checks := pa_checks st ++ [x]; pa_policies := pa_policies st |}
+  | None => None
+  end.
+Proof. reflexivity. Qed.
+Lemma step_policies_policy d st p :
+  step_policies d st (fn_ap_policies, WBytes p) =
+  match sub p (p_policy d init_policy) with
+  | Some x => Some {| pa_symbols := pa_symbols st; pa_version := pa_version st;
+                      pa_facts := pa_facts st; pa_rules := pa_rules st;
+                      pa_checks := pa_checks st; pa_policies := pa_policies st ++ [x] |}
+  | None => None
+  end.
+Proof. reflexivity. Qed.
+
+Lemma in_app_r2 {A} (x : A) a b c : In x c -> In x (a ++ b ++ c).
+Proof. apply in_app3. Qed.
+
+Lemma parse_policies_fields d a :
+  (2 <= d)%nat -> wf_policies a -> policies_ok a = true ->
+  p_policies d init_policies (fields_policies a) = Some (pb_of_policies a).
+Proof.
+  intros Hd (Hv & Hf & Hr & Hc & Hp & Hs) Hok.
+  unfold policies_ok in Hok. apply andb_true_iff in Hok as [Hok Hokp].
+  apply andb_true_iff in Hok as [Hok Hokc]. apply andb_true_iff in Hok as [Hokf Hokr].
+  unfold p_policies, fields_policies in *. fold (version_fields (ap_version a)) in *.
+  rewrite fold_opt_app.
+  rewrite (fold_opt_repeated (step_policies d) (fb fn_ap_symbols) (fun s => s) pa_symbols
+             (fun st l => {| pa_symbols := l; pa_version := pa_version st;
+                             pa_facts := pa_facts st; pa_rules := pa_rules st;
+                             pa_checks := pa_checks st; pa_policies := pa_policies st |}));
+    [| intros []; reflexivity | reflexivity | reflexivity | intros; apply step_policies_symbol].
+  rewrite fold_opt_app.
+  match goal with |- context [fold_opt (step_policies d) (version_fields (ap_version a)) ?st] =>
+    assert (E1 : fold_opt (step_policies d) (version_fields (ap_version a)) st =
+                 Some {| pa_symbols := pa_symbols st; pa_version := ap_version a;
+                         pa_facts := pa_facts st; pa_rules := pa_rules st;
+                         pa_checks := pa_checks st; pa_policies := pa_policies st |}) end.
+  { destruct (ap_version a) as [v|]; [|reflexivity]. cbn [version_fields fold_opt].
+    rewrite step_policies_version, u32_small by exact Hv. reflexivity. }
+  rewrite E1. clear E1.
+  rewrite fold_opt_app.
+  rewrite (fold_opt_repeated (step_policies d) _ (fun p => Some (pb_of_pred p)) pa_facts
+             (fun st l => {| pa_symbols := pa_symbols st; pa_version := pa_version st;
+                             pa_facts := l; pa_rules := pa_rules st;
+                             pa_checks := pa_checks st; pa_policies := pa_policies st |}));
+    [| intros []; reflexivity | reflexivity | reflexivity |].
+  2:{ intros p st Hin. unfold fm at 1. rewrite step_policies_fact.
+      assert (Hsp : small (encode_fields (fields_fact p))).
+      { eapply small_fm; [exact Hs|]. apply in_app3. apply in_or_app. left.
+        apply in_map_iff. exists p. split; [reflexivity|exact Hin]. }
+      rewrite sub_encode by (apply wf_fields_fact; assumption).
+      rewrite parse_fact; [reflexivity | exact Hd | exact (Forall_In _ _ _ Hf Hin) | exact Hsp]. }
+  rewrite fold_opt_app.
+  rewrite (fold_opt_repeated (step_policies d) _ pb_of_rule pa_rules
+             (fun st l => {| pa_symbols := pa_symbols st; pa_version := pa_version st;
+                             pa_facts := pa_facts st; pa_rules := l;
+                             pa_checks := pa_checks st; pa_policies := pa_policies st |}));
+    [| intros []; reflexivity | reflexivity | reflexivity |].
+  2:{ intros r st Hin. unfold fm at 1. rewrite step_policies_rule.
+      assert (Hsr : small (encode_fields (fields_rule r))).
+      { eapply small_fm; [exact Hs|]. apply in_app3. apply in_or_app. right.
+        apply in_or_app. left. apply in_map_iff. exists r. split; [reflexivity|exact Hin]. }
+      rewrite sub_encode by (apply wf_fields_rule; assumption).
+      rewrite parse_rule; [reflexivity | exact Hd | exact (Forall_In _ _ _ Hr Hin)
+                          | exact (forallb_In _ _ _ Hokr Hin) | exact Hsr]. }
+  rewrite fold_opt_app.
+  rewrite (fold_opt_repeated (step_policies d) _ (map pb_of_rule) pa_checks
+             (fun st l => {| pa_symbols := pa_symbols st; pa_version := pa_version st;
+                             pa_facts := pa_facts st; pa_rules := pa_rules st;
+                             pa_checks := l; pa_policies := pa_policies st |}));
+    [| intros []; reflexivity | reflexivity | reflexivity |].
+  2:{ intros c st Hin. unfold fm at 1. rewrite step_policies_check.
+      assert (Hsc : small (encode_fields (fields_check c))).
+      { eapply small_fm; [exact Hs|]. apply in_app3. apply in_or_app. right.
+        apply in_or_app. right. apply in_or_app. left.
+        apply in_map_iff. exists c. split; [reflexivity|exact Hin]. }
+      rewrite sub_encode
+        by (apply (wf_fields_rules fn_check_queries c); [reflexivity | exact Hsc]).
+      rewrite parse_check; [reflexivity | exact Hd | exact (Forall_In _ _ _ Hc Hin)
+                           | exact (forallb_In _ _ _ Hokc Hin) | exact Hsc]. }
+  rewrite (fold_opt_repeated (step_policies d) _ pb_of_policy pa_policies
+             (fun st l => {| pa_symbols := pa_symbols st; pa_version := pa_version st;
+                             pa_facts := pa_facts st; pa_rules := pa_rules st;
+                             pa_checks := pa_checks st; pa_policies := l |}));
+    [| intros []; reflexivity | reflexivity | reflexivity |].
+  2:{ intros p st Hin. unfold fm at 1. rewrite step_policies_policy.
+      assert (Hsp : small (encode_fields (fields_policy p))).
+      { eapply small_fm; [exact Hs|]. apply in_app3. apply in_or_app. right.
+        apply in_or_app. right. apply in_or_app. right.
+        apply in_map_iff. exists p. split; [reflexivity|exact Hin]. }
+      pose proof (Forall_In _ _ _ Hp Hin) as Hwp.
+      rewrite sub_encode by (apply wf_fields_policy; assumption).
+      rewrite parse_policy; [reflexivity | exact Hd | exact Hwp
+                            | exact (forallb_In _ _ _ Hokp Hin) | exact Hsp]. }
+  cbn [pa_symbols pa_version pa_facts pa_rules pa_checks pa_policies init_policies app].
+  rewrite map_id. reflexivity.
+Qed.
+
+Lemma req_policies_pb a : req_policies (pb_of_policies a) = true.
+Proof.
+  unfold req_policies, pb_of_policies. cbn [pa_facts pa_rules pa_checks pa_policies].
+  rewrite forallb_map_true by (intros; apply req_pred_pb).
+  rewrite forallb_map_true by (intros; apply req_rule_pb).
+  rewrite forallb_map_true by (intros; apply req_check_pb).
+  rewrite forallb_map_true by (intros; apply req_policy_pb). reflexivity.
+Qed.
+
+Lemma conv_policies_pb a : policies_ok a = true -> conv_policies (pb_of_policies a) = Ok a.
+Proof.
+  intros Hok. unfold policies_ok in Hok. apply andb_true_iff in Hok as [Hok Hokp].
+  apply andb_true_iff in Hok as [Hok Hokc]. apply andb_true_iff in Hok as [Hokf Hokr].
+  unfold conv_policies, pb_of_policies.
+  cbn [pa_symbols pa_version pa_facts pa_rules pa_checks pa_policies].
+  rewrite mapM_map
+    by (intros p Hp; cbn [conv_fact]; apply conv_pred_pb; exact (forallb_In _ _ _ Hokf Hp)).
+  cbn [bind].
+  rewrite mapM_map by (intros r Hr; apply conv_rule_pb; exact (forallb_In _ _ _ Hokr Hr)).
+  cbn [bind].
+  rewrite mapM_map by (intros c Hc; apply conv_check_pb; exact (forallb_In _ _ _ Hokc Hc)).
+  cbn [bind].
+  rewrite mapM_map
+    by (intros p Hp; apply conv_policy_pb; exact (forallb_In _ _ _ Hokp Hp)).
+  cbn [bind]. destruct a; reflexivity.
+Qed.
+
+Theorem policies_roundtrip a bs :
+  wf_policies a -> enc_policies a = Ok bs -> dec_policies bs = Ok a.
+Proof.
+  intros Hw He. unfold enc_policies in He.
+  destruct (policies_ok a) eqn:Hok; [|discriminate]. injection He as <-.
+  unfold dec_policies, parse_policies, unmarshal_msg.
+  rewrite fields_roundtrip by (apply wf_fields_policies; exact Hw).
+  rewrite parse_policies_fields by (auto using lenN_depth).
+  rewrite req_policies_pb. cbn [orb bind]. apply conv_policies_pb. exact Hok.
+Qed.
+
+Definition example_policies : policies :=
+  {| ap_symbols := [[112]; [113; 114]];
+     ap_version := Some 3;
+     ap_facts := db_facts example_block;
+     ap_rules := db_rules example_block;
+     ap_checks := db_checks example_block;
+     ap_policies := [(0, db_rules example_block); (1, []); (4294967295, db_rules example_block)] |}.
+
+Example policies_roundtrip_nonvacuous :
+  wf_policies example_policies /\
+  dec_policies (match enc_policies example_policies with Ok bs => bs | _ => [] end) = Ok example_policies /\
+  is_ok (enc_policies example_policies) = true.
+Proof. split; [wf_tac | split; vm_compute; reflexivity]. Qed.
+
+(* ------------------------------------------------------------------ *)
+(** * 12. Totality of the other entry points *)
+
+Lemma np_conv_sblock s : np (conv_sblock s).
+Proof.
+  unfold conv_sblock. destruct (ps_block s), (ps_key s) as [k|], (ps_sig s); try reflexivity.
+  destruct (pk_alg k), (pk_key k); reflexivity.
+Qed.
+
+Lemma np_dec_container bs : np (dec_container bs).
+Proof.
+  unfold dec_container. apply np_bind; [apply np_unmarshal_msg|]. intros b.
+  unfold conv_biscuit. destruct (pbi_auth b); [|reflexivity]. destruct (pbi_proof b); [|reflexivity].
+  apply np_bind; [apply np_conv_sblock|]. intros a.
+  apply np_bind; [apply np_mapM; apply np_conv_sblock | reflexivity].
+Qed.
+
+Theorem dec_container_no_panic bs s : dec_container bs <> Panic s.
+Proof. apply np_not_panic. apply np_dec_container. Qed.
+
+Lemma np_gate_and_decode sb : np (gate_and_decode sb).
+Proof.
+  unfold gate_and_decode.
+  destruct (negb (length (sb_key sb) =? 32)%nat); [reflexivity|].
+  destruct (negb (length (sb_sig sb) =? 64)%nat); [reflexivity|]. apply np_dec_block.
+Qed.
+
+Theorem unmarshal_no_panic bs s : unmarshal bs <> Panic s.
+Proof.
+  apply np_not_panic. unfold unmarshal.
+  apply np_bind; [apply np_dec_container|]. intros c.
+  apply np_bind; [apply np_gate_and_decode|]. intros a.
+  apply np_bind; [apply np_mapM; apply np_gate_and_decode | reflexivity].
+Qed.
+
+Lemma np_conv_policy p : np (conv_policy p).
+Proof.
+  unfold conv_policy. destruct (ppo_kind p); [|reflexivity].
+  apply np_bind; [apply np_mapM; apply np_conv_rule | reflexivity].
+Qed.
+
+Theorem dec_policies_no_panic bs s : dec_policies bs <> Panic s.
+Proof.
+  apply np_not_panic. unfold dec_policies. apply np_bind; [apply np_unmarshal_msg|]. intros a.
+  unfold conv_policies.
+  apply np_bind; [apply np_mapM; apply np_conv_fact|]. intros facts.
+  apply np_bind; [apply np_mapM; apply np_conv_rule|]. intros rules.
+  apply np_bind; [apply np_mapM; apply np_conv_check|]. intros checks.
+  apply np_bind; [apply np_mapM; apply np_conv_policy | reflexivity].
+Qed.
+
+(* Unmarshal's gates, in its order: on success every announced key is 32
+   bytes and every block signature 64 bytes, and each block decodes to the
+   returned content *)
+Theorem unmarshal_ok bs c a blocks :
+  unmarshal bs = Ok (c, a, blocks) ->
+  dec_container bs = Ok c /\
+  Forall (fun sb => length (sb_key sb) = 32%nat /\ length (sb_sig sb) = 64%nat)
+         (c_auth c :: c_blocks c) /\
+  dec_block (sb_block (c_auth c)) = Ok a /\
+  mapM (fun sb => dec_block (sb_block sb)) (c_blocks c) = Ok blocks.
+Proof.
+  unfold unmarshal. destruct (dec_container bs) as [c0| |]; cbn [bind]; try discriminate.
+  destruct (gate_and_decode (c_auth c0)) as [a0| |] eqn:Ea; cbn [bind]; try discriminate.
+  destruct (mapM gate_and_decode (c_blocks c0)) as [bl| |] eqn:Eb; cbn [bind]; try discriminate.
+  intros H. injection H as <- <- <-.
+  assert (G : forall sb d, gate_and_decode sb = Ok d ->
+              (length (sb_key sb) = 32%nat /\ length (sb_sig sb) = 64%nat) /\
+              dec_block (sb_block sb) = Ok d).
+  { intros sb d. unfold gate_and_decode.
+    destruct (length (sb_key sb) =? 32)%nat eqn:E1; cbn [negb]; [|discriminate].
+    destruct (length (sb_sig sb) =? 64)%nat eqn:E2; cbn [negb]; [|discriminate].
+    apply Nat.eqb_eq in E1, E2. auto. }
+  split; [reflexivity|].
+  destruct (G _ _ Ea) as [Ga Da].
+  assert (M : forall l r, mapM gate_and_decode l = Ok r ->
+              Forall (fun sb => length (sb_key sb) = 32%nat /\ length (sb_sig sb) = 64%nat) l /\
+              mapM (fun sb => dec_block (sb_block sb)) l = Ok r).
+  { induction l as [|x l IH]; intros r Hr.
+    - cbn in Hr. injection Hr as <-. split; [constructor | reflexivity].
+    - cbn [mapM] in Hr. destruct (gate_and_decode x) as [d| |] eqn:Ex; cbn [bind] in Hr; try discriminate.
+      destruct (mapM gate_and_decode l) as [r'| |] eqn:El; cbn [bind] in Hr; try discriminate.
+      injection Hr as <-. destruct (G _ _ Ex) as [Gx Dx]. destruct (IH _ eq_refl) as [F1 F2].
+      split; [constructor; assumption|]. cbn [mapM]. rewrite Dx, F2. reflexivity. }
+  destruct (M _ _ Eb) as [F1 F2].
+  split; [constructor; assumption|]. split; assumption.
+Qed.
+
+Example unmarshal_nonvacuous :
+  exists bs c a blocks, unmarshal bs = Ok (c, a, blocks) /\ length blocks = 1%nat.
+Proof.
+  pose (blk := match enc_block example_block with Ok b => b | _ => [] end).
+  pose (c := {| c_rootid := None;
+                c_auth := {| sb_block := blk; sb_alg := 0; sb_key := repeat 7 32; sb_sig := repeat 9 64 |};
+                c_blocks := [{| sb_block := [24; 3]; sb_alg := 0; sb_key := repeat 1 32; sb_sig := repeat 2 64 |}];
+                c_proof := PNextSecret (repeat 5 32) |}).
+  exists (enc_container c), c, example_block,
+    [{| db_symbols := []; db_context := []; db_version := 3; db_facts := []; db_rules := []; db_checks := [] |}].
+  split; vm_compute; reflexivity.
+Qed.
+
+(* ------------------------------------------------------------------ *)
+Print Assumptions varint_roundtrip.
+Print Assumptions fields_roundtrip.
+Print Assumptions decode_fields_k_fuel.
+Print Assumptions block_roundtrip.
+Print Assumptions container_roundtrip.
+Print Assumptions policies_roundtrip.
+Print Assumptions dec_block_version.
+Print Assumptions dec_block_no_panic.
+Print Assumptions dec_container_no_panic.
+Print Assumptions unmarshal_no_panic.
+Print Assumptions dec_policies_no_panic.
+Print Assumptions unmarshal_ok.
